@@ -160,14 +160,23 @@ pub fn duration_from_secs(s: u64) -> (r: u64) ensures r == s { s }
 pub fn duration_from_millis(ms: u64) -> (r: u64) ensures r == ms { ms }
 
 // std::time::Duration as a ghost-comparable number (rule T2): conversions to coarser units are not modelled (their results are unconstrained)
-pub trait DurationOps { fn as_millis(&self) -> (r: u128); fn as_micros(&self) -> (r: u128); fn as_nanos(&self) -> (r: u128); fn as_secs(&self) -> (r: u64); fn is_zero(&self) -> (r: bool); }
+pub trait DurationOps { fn as_millis(&self) -> (r: u128); fn as_micros(&self) -> (r: u128); fn as_nanos(&self) -> (r: u128); fn as_secs(&self) -> (r: u64); fn is_zero(&self) -> (r: bool); fn subsec_millis(&self) -> (r: u32); fn subsec_micros(&self) -> (r: u32); fn subsec_nanos(&self) -> (r: u32); }
 impl DurationOps for u64 {
     #[verifier::external_body] fn as_millis(&self) -> (r: u128) { unimplemented!() }
     #[verifier::external_body] fn as_micros(&self) -> (r: u128) { unimplemented!() }
     #[verifier::external_body] fn as_nanos(&self) -> (r: u128) { unimplemented!() }
     #[verifier::external_body] fn as_secs(&self) -> (r: u64) { unimplemented!() }
     #[verifier::external_body] fn is_zero(&self) -> (r: bool) { unimplemented!() }
+    #[verifier::external_body] fn subsec_millis(&self) -> (r: u32) { unimplemented!() }
+    #[verifier::external_body] fn subsec_micros(&self) -> (r: u32) { unimplemented!() }
+    #[verifier::external_body] fn subsec_nanos(&self) -> (r: u32) { unimplemented!() }
 }
 // context ids: `fresh_context_id(i)` = i was issued by the global id counter (envctor proves `ContextID::default` against it); it lives
 // here so that any unit can use that contract as a stub
 pub uninterp spec fn fresh_context_id(id: int) -> bool;
+// the service registry as a map (C08): an entry is live while the running slot of the address it holds is unresolved
+// taking the entry under key k out of the registry (removing or overwriting it) evicts a live instance iff one is registered there
+pub open spec fn evicts(w: &World, k: int) -> int { if reg_live(w, w.registry, k) { 1 } else { 0 } }
+pub open spec fn reg_live(w: &World, rg: Map<int, AnyVal>, k: int) -> bool { rg.dom().contains(k) && !w.slots[rg[k].slot].resolved }
+// rule M4: `format!(..)` (error messages): some string
+#[verifier::external_body] pub fn hx_format() -> (r: String) { unimplemented!() }
